@@ -326,3 +326,76 @@ theorem build_tlOK_kind (hc : KindCfg n fields cfg) :
     have hsingle := (C12.singleton_transparent (ws.foldl (fun acc w => acc.startWith w) (Timeline.build fields cfg)) v v t).1
     rw [hsingle] at hr
     exact update_kindVals _ hkt v r t hv hr
+
+/-! ### merges of several built timelines over the same struct -/
+
+theorem merged_fold_map (tls : List (Timeline ℚ)) (ws : List (List (Val ℚ))) :
+    ws.foldl (fun acc w => acc.startWith w) (Merged.mk tls) =
+      Merged.mk (tls.map fun tl => ws.foldl (fun acc w => acc.startWith w) tl) := by
+  induction ws generalizing tls with
+  | nil => simp
+  | cons w rest ih =>
+    simp only [List.foldl_cons]
+    have : (Merged.mk tls).startWith w = Merged.mk (tls.map (·.startWith w)) := rfl
+    rw [this, ih]
+    simp [List.map_map, Function.comp_def]
+
+/-- a merge evaluates to `v` if every member does -/
+theorem merged_update_fix (tls : List (Timeline ℚ)) (v : List (Val ℚ)) (t : ℚ)
+    (h : ∀ tl ∈ tls, tl.update v t = .ok v) : (Merged.mk tls).update v t = .ok v := by
+  induction tls with
+  | nil => rfl
+  | cons tl rest ih =>
+    rw [C12.merged_update_cons, h tl (by simp)]
+    exact ih (fun x hx => h x (by simp [hx]))
+
+/-- a merge keeps a predicate that every member keeps -/
+theorem merged_update_keeps (P : List (Val ℚ) → Prop) (tls : List (Timeline ℚ)) (t : ℚ)
+    (h : ∀ tl ∈ tls, ∀ v r, P v → tl.update v t = .ok r → P r) (v r : List (Val ℚ)) (hv : P v)
+    (hr : (Merged.mk tls).update v t = .ok r) : P r := by
+  induction tls generalizing v with
+  | nil => simp [Merged.update, Merged.update.go] at hr; subst hr; exact hv
+  | cons tl rest ih =>
+    rw [C12.merged_update_cons] at hr
+    cases hu : tl.update v t with
+    | error e => rw [hu] at hr; simp at hr
+    | ok v1 =>
+      rw [hu] at hr
+      exact ih (fun x hx => h x (by simp [hx])) v1 (h tl (by simp) v v1 hv hu) hr
+
+/-- **a merge of builder-built timelines over the same struct is `TlOK`** -/
+theorem build_tlOK_merged (cfgs : List (Config ℚ)) (hcs : ∀ cfg ∈ cfgs, KindCfg n fields cfg) :
+    C04.TlOK (KindVals n fields) (Merged.mk (cfgs.map (Timeline.build fields))) := by
+  intro ws hws
+  rw [merged_fold_map]
+  constructor
+  · intro v hv
+    have : (Merged.mk ((cfgs.map (Timeline.build fields)).map fun tl => ws.foldl (fun acc w => acc.startWith w) tl)).startWith v
+        = Merged.mk (cfgs.map fun cfg => (Timeline.build fields cfg).startWith v) := by
+      simp only [Merged.startWith, List.map_map, Function.comp_def]
+      congr 1
+      apply List.map_congr_left
+      intro cfg _
+      exact fold_startWith_last _ ws v (fun w hw => by rw [(hws w hw).1, hv.1])
+    rw [this]
+    apply merged_update_fix
+    intro tl htl
+    obtain ⟨cfg, hcfg, rfl⟩ := List.mem_map.1 htl
+    exact build_blend_kind (hcs cfg hcfg) v hv
+  · intro v t r hv hr
+    refine merged_update_keeps (KindVals n fields) _ t ?_ v r hv hr
+    intro tl htl v' r' hv' hr'
+    simp only [List.map_map, List.mem_map, Function.comp] at htl
+    obtain ⟨cfg, hcfg, rfl⟩ := htl
+    have hkt : KindTimeline fields (ws.foldl (fun acc w => acc.startWith w) (Timeline.build fields cfg)) := by
+      have : ∀ (l : List (List (Val ℚ))) (t0 : Timeline ℚ), (∀ w ∈ l, KindVals n fields w) → KindTimeline fields t0 →
+          KindTimeline fields (l.foldl (fun acc w => acc.startWith w) t0) := by
+        intro l
+        induction l with
+        | nil => intro t0 _ h0; exact h0
+        | cons w rest ih =>
+          intro t0 hl h0
+          simp only [List.foldl_cons]
+          exact ih _ (fun x hx => hl x (by simp [hx])) (startWith_kindTimeline t0 w h0 (hl w (by simp)).2)
+      exact this ws _ hws (build_kindTimeline (hcs cfg hcfg))
+    exact update_kindVals _ hkt v' r' t hv' hr'
